@@ -251,13 +251,17 @@ def run_groups(groups, tier, seed):
                     f.props = set(f.props) | set(gdef['also_for'])
         if gdef.get('cex'):
             # concrete values are extracted (and replayed) for the first failures only: each costs two more CBMC runs
-            for n_cex, f in enumerate(kr.failures):
-                if n_cex >= 3:
-                    f.cex = dict(note='counterexample extraction skipped: 3 failures of this slice already carry one')
-                    continue
+            def _one(f, name=name, gdef=gdef):
                 try:
                     f.cex = gdef['cex'](name, f)
                 except Exception as e:
                     f.cex = dict(note='could not obtain concrete values: %r' % e)
+            todo = kr.failures[:3]
+            for f in kr.failures[3:]:
+                f.cex = dict(note='counterexample extraction skipped: 3 failures of this slice already carry one')
+            if todo:
+                from concurrent.futures import ThreadPoolExecutor
+                with ThreadPoolExecutor(len(todo)) as ex:
+                    list(ex.map(_one, todo))
         out.append(kr)
     return out
